@@ -168,7 +168,7 @@ theorem float_le_trans (a b c : F64) (h1 : fle a b = true) (h2 : fle b c = true)
 
 theorem float_lt_le_trans (a b c : F64) (h1 : F64.lt a b = true) (h2 : fle b c = true) : F64.lt a c = true := by
   cases a <;> cases b <;> cases c <;>
-    simp only [fle_inf_inf, fle_inf_fin, fle_fin_inf, fle_nan_left, fle_nan_right, fle_fin_fin,
+    simp only [fle_inf_inf, fle_inf_fin, fle_fin_inf, fle_nan_right, fle_fin_fin,
       lt_inf_inf, lt_inf_fin, lt_fin_inf, lt_nan_left, lt_nan_right, lt_fin_fin, decide_eq_true_eq,
       Bool.false_eq_true] at h1 h2 ⊢ <;>
     try (first | done | (simp_all; done) | (rename_i x y z; revert h1 h2; cases x <;> cases y <;> cases z <;> decide))
@@ -179,7 +179,7 @@ theorem float_lt_le_trans (a b c : F64) (h1 : F64.lt a b = true) (h2 : fle b c =
 theorem float_le_lt_trans (a b c : F64) (h1 : fle a b = true) (h2 : F64.lt b c = true) : F64.lt a c = true := by
   cases a <;> cases b <;> cases c <;>
     simp only [fle_inf_inf, fle_inf_fin, fle_fin_inf, fle_nan_left, fle_nan_right, fle_fin_fin,
-      lt_inf_inf, lt_inf_fin, lt_fin_inf, lt_nan_left, lt_nan_right, lt_fin_fin, decide_eq_true_eq,
+      lt_inf_inf, lt_inf_fin, lt_fin_inf, lt_nan_right, lt_fin_fin, decide_eq_true_eq,
       Bool.false_eq_true] at h1 h2 ⊢ <;>
     try (first | done | (simp_all; done) | (rename_i x y z; revert h1 h2; cases x <;> cases y <;> cases z <;> decide))
   rename_i na ma ea nb mb eb nc mc ec
@@ -525,9 +525,10 @@ theorem float_items_duality (c : Ctx) (a b : F64) :
     (itemHolds c .lt (.flt a) (.flt b) ↔ itemHolds c .gt (.flt b) (.flt a)) ∧
     (itemHolds c .le (.flt a) (.flt b) ↔ itemHolds c .lt (.flt a) (.flt b) ∨ itemHolds c .eq (.flt a) (.flt b)) ∧
     (itemHolds c .ge (.flt a) (.flt b) ↔ itemHolds c .gt (.flt a) (.flt b) ∨ itemHolds c .eq (.flt a) (.flt b)) := by
-  rw [itemHolds_flt c .lt rfl, itemHolds_flt c .eq rfl, itemHolds_flt c .gt rfl, itemHolds_flt c .gt rfl,
-    itemHolds_flt c .le rfl, itemHolds_flt c .ge rfl, C12.duality_float, C12.le_union, C12.ge_union]
-  simp
+  refine ⟨?_, ?_, ?_⟩
+  · rw [itemHolds_flt c .lt rfl, itemHolds_flt c .gt rfl, C12.duality_float]
+  · rw [itemHolds_flt c .lt rfl, itemHolds_flt c .eq rfl, itemHolds_flt c .le rfl, C12.le_union]; simp
+  · rw [itemHolds_flt c .gt rfl, itemHolds_flt c .eq rfl, itemHolds_flt c .ge rfl, C12.ge_union]; simp
 
 /-! ### representation -/
 
@@ -558,7 +559,7 @@ private def f (i : Int) : F64 := F64.ofInt i
 private def half : F64 := .fin false 4503599627370496 (-53)
 
 example : F64.lt (f 1) (f 2) = true ∧ F64.lt (f 2) (f 1) = false ∧ F64.feq (f 2) (f 2) = true := ⟨rfl, rfl, rfl⟩
-example : F64.lt half (f 1) = true ∧ F64.lt (f 0) half = true ∧ F64.lt (F64.neg half) (f 0) = true := ⟨rfl, rfl, rfl⟩
+example : F64.lt half (f 1) = true ∧ F64.lt (F64.neg half) half = true ∧ F64.lt (f (-1)) (F64.neg half) = true := ⟨rfl, rfl, rfl⟩
 example : F64.lt (.inf true) (f (-5)) = true ∧ F64.lt (f 5) (.inf false) = true := ⟨rfl, rfl⟩
 example : fle (f 1) (f 1) = true ∧ fle (f 1) (f 2) = true ∧ fle (f 2) (f 1) = false := ⟨rfl, rfl, rfl⟩
 -- a denormalised representation of 1 (`2 * 2^-1`) equals the canonical one: the comparison is by value
